@@ -393,3 +393,33 @@ def storage(ctx, rep):
                       key='LOAD-INV|bounds')
             ev = [e for e in o.state.events]
             rep.check(not ev, 'no uninitialised read on the accept path', wl, fl.name, detail=ev[:3], key='LOAD-INV|uninit')
+
+
+def storage_total(ctx, rep):
+    """load o store = identity with the OK exit only: every canonical seed's image is accepted"""
+    for cfg in cfgs_for(ctx):
+        P = ctx.prog(cfg)
+        if cfg not in rep.configs: rep.configs.append(cfg)
+        fs = P.fn('polyseed_data_store'); fl = P.fn('polyseed_data_load')
+        wl = '%s:%s' % ((fl.file or '').replace('/repo/', ''), fl.line)
+        status = P.enum('polyseed_status')
+        rep.rule('LOAD-TOTAL', 'polyseed_data_load applied to the symbolic image that polyseed_data_store writes for a canonical seed (any 150-bit '
+                 'secret, any birthday < 2^10, any of the 32 feature values - encrypted or not -, any check value) has the OK exit only and returns '
+                 'the identical fields: no serialization of a seed the library can hold is rejected')
+        I = Interp(P); st = State()
+        seed, fo = symbolic_seed(I, st, canonical=True)
+        st.mem.new('img', 32, U)
+        o1 = I.run(fs, [seed, Ptr('img', 0)], st)
+        if len(o1) != 1:
+            rep.fail('store straight-line', wl, fs.name); continue
+        st2 = o1[0].state
+        st2.mem.new('seed2', P.structs[DATA_STRUCT]['size'], U)
+        outs = I.run(fl, [Ptr('img', 0), Ptr('seed2', 0)], st2)
+        rets = sorted(set(str(o.ret.concrete()) for o in outs))
+        rep.check(len(outs) == 1 and outs[0].ret.concrete() == status['POLYSEED_OK'], 'load(store(seed)) has the OK exit only', wl, 'polyseed_data_load on stored images',
+                  detail={'exits': rets, 'rejecting_guards': [o.state.cons.opaque[-1:] for o in outs if o.ret.concrete() != status['POLYSEED_OK']][:3]},
+                  sample={'exits': rets}, key='LOAD-TOTAL|exits')
+        for o in outs:
+            if o.ret.concrete() != status['POLYSEED_OK']: continue
+            same = o.state.mem.objs['seed2'] == o.state.mem.objs['seed']
+            rep.check(same, 'load(store(seed)) == seed, all 48 bytes', wl, 'polyseed_data_load o polyseed_data_store', key='LOAD-TOTAL|identity')
